@@ -751,7 +751,11 @@ func ruleLevelStringArms(r *Run, p *Prog, st *ssa.Function, lc map[string]int64)
 	}
 	sort.Strings(ks)
 	for _, k := range ks {
-		ok := len(srcOf[k]) == 1
+		uniq := map[int64]bool{}
+		for _, v := range srcOf[k] {
+			uniq[v] = true
+		}
+		ok := len(uniq) == 1 // the same arm may be reached along several paths (a range test before it)
 		r.Ob("LVLTAB", "Level.String/arm:"+k, p.Pos(st.Pos()), ok, true, fmt.Sprintf("levels %v print as %s", srcOf[k], k))
 	}
 }
